@@ -11,8 +11,8 @@ def main():
     for m in sorted(pkgutil.iter_modules(harness.__path__), key=lambda m: m.name):
         if not (m.name.startswith("c") and m.name[1:].isdigit()):
             continue
-        mod = importlib.import_module(f"harness.{m.name}")
         try:
+            mod = importlib.import_module(f"harness.{m.name}")
             mod.CHECK("quick", 0).translate()
         except Exception as e:
             print(f"translator for {m.name} failed: {e}")
